@@ -45,6 +45,8 @@ class Module:
                 node.targets[0], ast.Name
             ):
                 self.assigns[node.targets[0].id] = node.value
+            elif isinstance(node, ast.AnnAssign) and isinstance(node.target, ast.Name) and node.value is not None:
+                self.assigns[node.target.id] = node.value
 
     def segment(self, node):
         return "".join(self.lines[node.lineno - 1 : node.end_lineno])
